@@ -1,5 +1,6 @@
 // C04: the coarse direct solve inverts exactly the operator the residual applies.
 #include "common/driver.h"
+#include <cstring>
 #include "common/kit.h"
 #include "common/ref_operator.h"
 
@@ -97,6 +98,43 @@ static void run_case(CaseCtx& c)
     for (int i = 0; i < n; i++)
         same = same && (xg2[i] == xg[i] || (std::isnan(xg2[i]) && std::isnan(xg[i])));
     c.obs.require("repeat_solve_identical", same, "give");
+    // copies of the solver objects (one clone per worker is a natural use) solve like the original, bit for bit
+    {
+        DirectSolverGiveCustomLU sgc(sg);
+        DirectSolverTakeCustomLU stc(st);
+        Vector<double> yg = b, yt = b;
+        sgc.solveInPlace(yg);
+        stc.solveInPlace(yt);
+        bool sg_same = true, st_same = true;
+        for (int i = 0; i < n; i++) {
+            sg_same = sg_same && std::memcmp(&yg[i], &xg[i], sizeof(double)) == 0;
+            st_same = st_same && std::memcmp(&yt[i], &xt[i], sizeof(double)) == 0;
+        }
+        c.obs.require("copied_solver_identical", sg_same, "give");
+        c.obs.require("copied_solver_identical", st_same, "take");
+    }
+    // the solver a Level owns (what the multigrid cycle calls): initialised for the other boundary mode first, then for
+    // this one -- the second initialisation must win
+    {
+        const bool use_take = rng.coin(0.5);
+        Hierarchy H;
+        H.build(grid, po, use_take ? true : bool(cache_combo & 1), use_take ? true : bool((cache_combo >> 1) & 1), 1);
+        Level& L = *H.levels[0];
+        const auto method = use_take ? StencilDistributionMethod::CPU_TAKE : StencilDistributionMethod::CPU_GIVE;
+        if (rng.coin(0.7))
+            L.initializeDirectSolver(*po.geo, *po.prof, !dirbc, rng.pick({1, threads}), method);
+        L.initializeDirectSolver(*po.geo, *po.prof, dirbc, threads, method);
+        Vector<double> y = b;
+        L.directSolveInPlace(y);
+        const Vector<double>& direct = use_take ? xt : xg;
+        double xinf = 0, d = 0;
+        for (int i = 0; i < n; i++) {
+            xinf = std::max(xinf, std::fabs(direct[i]));
+            d = std::max(d, std::fabs(y[i] - direct[i]));
+        }
+        // assembly with several threads scatters in another order: compare to rounding, not bitwise
+        c.obs.check("level_solver_equals_direct_solver", xinf > 0 ? d / xinf / std::max(1.0, 1e-3 * go.Rmax / gs.radii.front()) : (d > 0 ? 1.0 : 0.0), std::string(use_take ? "take/" : "give/") + (dirbc ? "dirbc" : "across"));
+    }
 
     ResidualGive rg(grid, lc_give, *po.geo, *po.prof, dirbc, 1);
     ResidualTake rt(grid, lc_full, *po.geo, *po.prof, dirbc, 1);
